@@ -54,7 +54,7 @@ def sig_of(m: dict) -> dict:
 
 
 def _paths(cfg: str) -> tuple[list, object]:
-    r = run_tlc('AtomicWrite', cfg)
+    r = run_tlc('AtomicWrite', cfg, heap='3g')
     core.require_mc(r, cfg)
     paths = [p for p in r.prints if isinstance(p, dict) and p.get('tag') == 'PATH']
     if not paths:
@@ -102,7 +102,7 @@ def run(tier: str, seed: int) -> int:
         mc_cfgs = (['AtomicWrite_mc.cfg', 'AtomicWrite_mcr.cfg', 'AtomicWrite_live.cfg', 'AtomicWrite_live1.cfg'] if quick else
                    ['AtomicWrite_mc_big.cfg', 'AtomicWrite_mcr_big.cfg', 'AtomicWrite_mc.cfg', 'AtomicWrite_mcr.cfg',
                     'AtomicWrite_live_big.cfg', 'AtomicWrite_live1.cfg'])
-        mc_futs = {c: pool.submit(run_tlc, 'AtomicWrite', c, workers=8, timeout=1500) for c in mc_cfgs}
+        mc_futs = {c: pool.submit(run_tlc, 'AtomicWrite', c, workers=8, timeout=1500, heap='3g') for c in mc_cfgs}
         # 2. schedules enumerated by TLC
         f1 = pool.submit(_paths, 'AtomicWrite_paths1.cfg' if quick else 'AtomicWrite_paths1_big.cfg')
         f2 = pool.submit(_paths, 'AtomicWrite_paths2.cfg')
